@@ -28,3 +28,14 @@ claim("C15", "other",
       "Panic-site audit and exit analysis of the whole input-handling layer: every bounds check / range index is entailed by still-valid dominating length tests (difference constraints, reassignment kills a fact), every arithmetic assert discharged, explicit panics / unwrap / may-panic std calls are violations unless proved dead, boundary calls are a confirmed table, the loop exits on end of input, read error and Quit, never blocks, logs and continues on errors. Quantifies over all input lines because it quantifies over all paths.",
       "assumes valid FEN arguments (statement), open stdout, and that std functions outside the listed may-panic set do not panic; board-layer panics on chess-illegal FENs are out of scope.",
       "static analysis: panic-site enumeration + difference-constraint bounds discharge + CFG exit analysis over rustc MIR", "DESIGN.md section 3 C15")
+
+
+claim("C09", "other",
+      "Path rules on the search thread's spine: exactly one bestmove emission on every path (iter_deep outside the loop; search() -> iter_deep once; thread closure -> search() once; one spawn), no undischarged panic site on the spine before the emission, abort test dominating every recursive call and repeated after every child, a non-blocking Go arm, the depth limit bounding iterations only, and the printed move drawn from legality-checked sources. Holds for every position x limit combination because it holds for every path.",
+      "wall-clock adherence and panic-freedom of the tree walk beyond the spine are not decided (notes in the evidence).",
+      "static analysis: path counting / post-dominance + panic-site audit over rustc MIR", "DESIGN.md section 3 C09")
+
+claim("C14", "other",
+      "Structural clauses of the progress reports: the depth limit only bounds the iteration range and is never compared with the ply counter; one info line per iteration with the loop variable, guarded by both abort tests, after that iteration's search; PV moves pass is_legal_move on the position they are played in and the scratch board is restored; score and move are written together.",
+      "textual UCI syntax and mate-distance arithmetic are not decided.",
+      "static analysis: dataflow of the depth limit + dominance / must-pass-through over rustc MIR", "DESIGN.md section 3 C14")
